@@ -190,8 +190,18 @@ def cosim_ops(ctx: Ctx, rp, k: int):
         if not fids or not vids:
             return rp
         v = rp.s.vehicles[r.choice(vids)]
+        fid = r.choice(fids)
+        if o.get("prefer_en_route"):
+            # preferably a vehicle on its way to a request, moved to a fleet that request is not open to
+            en_route = [x for x in rp.s.get_vehicles() if type(x.vehicle_state).__name__ == "DispatchTrip" and x.vehicle_state.request_id in rp.s.requests]
+            if en_route and r.random() < 0.7:
+                v = r.choice(en_route)
+                other = [f for f in fids if f not in rp.s.requests[v.vehicle_state.request_id].membership.memberships]
+                if other:
+                    fid = r.choice(other)
+                    ctx.count("cosim_vehicle_en_route_moved_out_of_the_requests_fleet")
         keep = tuple(sorted(m for m in v.membership.memberships if "_private_" in m))
-        res = modify_entities_safe(rp, [v.set_membership(keep + (r.choice(fids),))])
+        res = modify_entities_safe(rp, [v.set_membership(keep + (fid,))])
         if isinstance(res, Failure):
             return rp
         ctx.count("cosim_change_membership")
